@@ -20,7 +20,7 @@ for fn in sorted(os.listdir(src)):
     cur['coverage']['other_tier_last_run'] = {
         'tier': old.get('tier'), 'finished_utc': oc.get('finished_utc'), 'wall_s': old.get('wall_s'), 'violations': old.get('violations'),
         'obligations': oc.get('obligations'), 'discharged': oc.get('discharged'), 'decided': oc.get('decided'),
-        'inconclusive': [x.get('obligation') for x in oc.get('inconclusive', [])][:40],
+        'inconclusive': [x.get('obligation') for x in oc.get('inconclusive', [])][:40], 'inconclusive_count': len(oc.get('inconclusive', [])),
         'known_findings': sorted({x.get('finding') for x in oc.get('known_findings', []) if x.get('finding')}),
         'states': oc.get('states'), 'transitions': oc.get('transitions'), 'queries': oc.get('queries'), 'solver_time_s': oc.get('solver_time_s'),
         'source_digest': oc.get('source_digest'), 'partial_run_filter': oc.get('partial_run_filter'),
